@@ -340,8 +340,10 @@ Note2: you can use PyPy to speed the generation, but you should avoid using PyPy
                     filescount = filescount + 1
                     filepath = os.path.join(rootfolderpath, row['path']) # Build the absolute file path
 
-                    # Single-file mode: skip if this is not the file we are looking for
-                    if inputpath != rootfolderpath and inputpath != filepath: continue
+                    # Single-file mode: if this is not the file we are looking for, keep its row as-is
+                    if inputpath != rootfolderpath and inputpath != filepath:
+                        csv_writer.writerow( [ path2unix(row['path']), row['md5'], row['sha1'], row['last_modification_timestamp'], row['last_modification_date'], row['size'], row['ext'] ] )
+                        continue
 
                     if verbose: ptee.write("\n- Processing file %s" % row['path'])
                     errors = []
